@@ -511,6 +511,13 @@ def call_ext(it: Any, f: ExtV, args: List[Any], kwargs: Dict[str, Any], node: An
     if name in ("torch.fx.node.map_arg", "torch.fx.node.map_aggregate", "torch.fx.map_arg", "torch.fx.map_aggregate"):
         from .fxmodel import deep_map, is_node
 
+        args = list(args)
+        if len(args) < 1 and "a" in kwargs:
+            args.append(kwargs["a"])
+        if len(args) < 2 and "fn" in kwargs:
+            args.append(kwargs["fn"])
+        if len(args) < 2:
+            raise A.Unsupported(f"{name} without its two arguments")
         fnv = args[1]
         if name.endswith("map_arg"):
             return deep_map(args[0], lambda n: it.call_function(fnv, [n], {}, node))
